@@ -69,6 +69,9 @@ def run(tier, seed):
     # model's for all inputs; a failure is reported when the check finishes unless a stage below finds a
     # concrete failing input
     gen_tie.gate(chk, ['timeout_terminate_method', 'spawn_setup'], gate)
+    # DESIGN 11.2e: terminate_child's entry and its grace-expiry arm are regenerated from the source and proved
+    # equal to the model's (target of the signals: the process group)
+    U.arms_gate(chk, PROP, gate)
     try:
         rig = e2e.Rig()
     except RuntimeError as ex:
